@@ -54,8 +54,11 @@ class _InMemoryConsumer(ConsumerT):
     async def finish(self) -> None:
         await asyncio.sleep(0)
         self._started = False
-        while self._queue.processing:
-            self._queue.simple.put_nowait(self._queue.processing.pop())
+        for msg in list(self._queue.processing):
+            if self._queue.taken_by.get(msg.key.id_) is self:
+                self._queue.processing.remove(msg)
+                self._queue.taken_by.pop(msg.key.id_, None)
+                self._queue.simple.put_nowait(msg)
         await asyncio.sleep(0)
 
     def __update_delayed(self) -> None:
@@ -118,6 +121,7 @@ class _InMemoryConsumer(ConsumerT):
                 self.__update_delayed()
 
         self._queue.processing.add(msg)
+        self._queue.taken_by[msg.key.id_] = self
 
         await asyncio.sleep(0)
         return (msg.key, msg.payload, msg.parameters)
